@@ -325,3 +325,45 @@ def r_fstream(F, S, fn, stream_field="file"):
         return [bad("R-FSTREAM", inst, fn.loc(last[-1]) if last else fn.loc(fn.body), fn.qn, req,
                     "a %s exit is reachable after read() with neither clear() nor a passed `!%s` test" % (kind, stream_field))]
     return [ok("R-FSTREAM", inst, fn.loc(fn.body), fn.qn, req, "every exit after read() passes clear() or the success branch")]
+
+
+# ------------------------------------------------------------------------------------------
+def extraction_always_writes(F, fn, label, _depth=2):
+    """R-MUSTCALL: an extract-to-path operation creates its output file on every path on which it returns normally - directly
+    (a Stream::FileWriter constructed on the path it was given) or through a same-class helper it forwards the path to that
+    does so itself. A member of length 0 is extracted to an empty file, not to nothing."""
+    from .through import on_every_returning_path
+    paths = [("var", p["n"], p["d"]) for p in fn.params if "basic_string" in (p.get("ct") or "")]
+    req = "the output file is created on every path that returns normally (whatever the member's length or kind)"
+    inst = "%s#always-writes" % label
+
+    def creating_nodes(f, pvars, depth):
+        ids = []
+        for nd in f.nodes:
+            if nd["k"] in CTORS and (nd.get("ctor_rec") or "").endswith("Stream::FileWriter") and nd.get("args") and f.term(nd["args"][0]) in pvars:
+                ids.append(nd["id"])
+            elif nd["k"] == "DeclStmt":
+                for d in nd.get("decls", []):
+                    if (d.get("rec") or "").endswith("Stream::FileWriter") and "init" in d:
+                        t = f.term(d["init"])
+                        if t[0] == "ctor" and t[2] and t[2][0] in pvars:
+                            ids.append(nd["id"])
+            elif nd["k"] in CALLS and depth > 0 and nd.get("args"):
+                fwd = [i for i, a in enumerate(nd["args"]) if f.term(a) in pvars]
+                if not fwd:
+                    continue
+                for cal in F.callees(nd):
+                    if not cal.cfg or cal.key == f.key or cal.cls != f.cls:
+                        continue
+                    cp = [("var", cal.params[i]["n"], cal.params[i]["d"]) for i in fwd if i < len(cal.params)]
+                    sub = creating_nodes(cal, cp, depth - 1)
+                    if sub and on_every_returning_path(cal, sub):
+                        ids.append(nd["id"])
+        return ids
+
+    ids = creating_nodes(fn, paths, _depth)
+    if not ids:
+        raise AnalysisBroken("%s: no output file creation found (shape not recognised)" % fn.qn)
+    if on_every_returning_path(fn, ids):
+        return [ok("R-MUSTCALL", inst, fn.loc(ids[0]), fn.qn, req, "%d creating site(s) cover every returning path" % len(ids))]
+    return [bad("R-MUSTCALL", inst, fn.loc(fn.body), fn.qn, req, "a path returns without creating the output file (an early return before the FileWriter is constructed)")]
